@@ -60,12 +60,15 @@ def main():
     expect("determinism: second run differs", "Trace_Determinism.tla", "Trace_Determinism.cfg", mutate(det, 1, report="r2"), False)
     expect("determinism: permuted keys change the file", "Trace_Determinism.tla", "Trace_Determinism.cfg", mutate(det, 2, out="bb"), False)
     # Conc
-    conc = [{"ev": "cfg", "shared": ["A"], "contextual": ["B"], "fns": ["F"]}, {"ev": "fn", "name": "F"}, {"ev": "ctor", "made": "A", "serial": 1},
-            {"ev": "ctor", "made": "B", "serial": 2}, {"ev": "ret", "seq": 5, "ctx": 1, "insts": [["A", 1], ["B", 2]]},
-            {"ev": "ctor", "made": "B", "serial": 3}, {"ev": "ret", "seq": 7, "ctx": 2, "insts": [["A", 1], ["B", 3]]}]
+    conc = [{"ev": "cfg", "shared": ["A"], "contextual": ["B"], "ns": ["C"], "fns": ["F"]}, {"ev": "fn", "name": "F"}, {"ev": "ctor", "made": "A", "serial": 1},
+            {"ev": "ctor", "made": "B", "serial": 2}, {"ev": "ret", "seq": 5, "ctx": 1, "insts": [["A", 1], ["B", 2]], "root": ["B", 2]},
+            {"ev": "ctor", "made": "B", "serial": 3}, {"ev": "ret", "seq": 7, "ctx": 2, "insts": [["A", 1], ["B", 3]], "root": ["B", 3]},
+            {"ev": "ctor", "made": "C", "serial": 4}, {"ev": "ret", "seq": 9, "ctx": 2, "insts": [["C", 4]], "root": ["C", 4]},
+            {"ev": "ctor", "made": "C", "serial": 5}, {"ev": "ret", "seq": 11, "ctx": 2, "insts": [["C", 5]], "root": ["C", 5]}]
     expect("conc: faithful", "Trace_Conc.tla", "Trace_Conc.cfg", conc, True)
     expect("conc: contextual instance shared between contexts", "Trace_Conc.tla", "Trace_Conc.cfg", mutate(conc, 6, insts=[["A", 1], ["B", 2]]), False)
     expect("conc: two instances of a shared service", "Trace_Conc.tla", "Trace_Conc.cfg", mutate(conc, 6, insts=[["A", 9], ["B", 3]]), False)
+    expect("conc: the same non_shared instance handed out twice", "Trace_Conc.tla", "Trace_Conc.cfg", mutate(conc, 10, insts=[["C", 4]], root=["C", 4]), False)
     expect("conc: parameter evaluated twice", "Trace_Conc.tla", "Trace_Conc.cfg", conc[:2] + [{"ev": "fn", "name": "F"}] + conc[2:], False)
     expect("conc: shared service constructed twice", "Trace_Conc.tla", "Trace_Conc.cfg", conc[:3] + [{"ev": "ctor", "made": "A", "serial": 8}] + conc[3:], False)
     bad = [r for r in results if not r[1]]
